@@ -32,7 +32,7 @@ BOX = {
 ASSUMPTIONS = ["documented parameter box (empirical, with a 10x margin on every tolerance): " + "; ".join(f"{k}: {v}" for k, v in BOX.items()),
                "spot in [5,500], r in [0,0.1], d in [0,0.06]; strikes inside the middle 40% of COS's own [a,b]"]
 REQUIRED_COUNTERS = ["parity_checks", "bound_checks", "convexity_checks", "digital_checks", "density_checks", "cos_vs_fft",
-                     "cos_vs_blackscholes", "vg_vs_cgmy", "scalar_vs_vector", "price_product_checks", "closed_form_without_volatility", "prices_after_representation_change", "cos_vs_merton_series", "prices_after_rates_assigned"]
+                     "cos_vs_blackscholes", "vg_vs_cgmy", "scalar_vs_vector", "price_product_checks", "closed_form_without_volatility", "prices_after_representation_change", "cos_vs_merton_series", "prices_after_rates_assigned", "models_reached_by_parameter_update"]
 MIN_NONTRIVIAL = {"quick": 25, "thorough": 250}
 THOROUGH_ROUNDS = 3      # the thorough tier runs the generators this many times (different seeds)
 SHARD_TIMEOUT = {"quick": 900, "thorough": 7200}
@@ -136,6 +136,15 @@ def run_case(case, R):
     fam = spec["family"]
     label = W.model_label(spec)
     model = W.build_model(spec)
+    if fam != "BS" and case["seed"] % 2 == 0:
+        # the parameter object first holds another parameter set of the family, is assigned the final values one by one and re-initialised
+        # (what the calibration helpers do): the same model
+        start_spec, _ = gen_spec(np.random.default_rng(case["seed"] + 1), fam)
+        if fam == "CGMY":
+            # (same activity index: the other three parameters move)
+            start_spec = dict(spec, params=dict(spec["params"], c=spec["params"]["c"] * 1.3, g=spec["params"]["g"] * 0.8, m=spec["params"]["m"] * 1.2))
+        model = W.build_model_via_update(spec, start_spec, case["seed"])
+        R.hit("models_reached_by_parameter_update")
     S = spec["spot"]
     wit = {"spec": spec, "T": T}
     R.klass(label)
@@ -209,6 +218,13 @@ def run_case(case, R):
         judge("cos-vs-bs-put", np.max(np.abs(bp - put)) / S, "cos_bs", "COS put differs from the Black-Scholes formula", "cos_vs_blackscholes")
         judge("bs-parity", np.max(np.abs(bc - bp - np.array([cf.forward(k, T) for k in ks]))) / S, "parity", "closed-form parity", "cos_vs_blackscholes")
         judge("cos-vs-bs-digital", np.max(np.abs(cf.digital(ks, T) - dig)), "cos_bs", "COS digital differs from Black-Scholes", "cos_vs_blackscholes")
+        # closed-form butterflies (symmetric and not, body below and above the forward) = their call combination
+        dev_b = 0.0
+        for _ in range(8):
+            i1, i2, i3 = sorted(int(v) for v in rng.choice(41, size=3, replace=False))
+            bfly = float(cf.butterfly(float(ks[i1]), float(ks[i2]), float(ks[i3]), T))
+            dev_b = max(dev_b, abs(bfly - (bc[i1] - 2 * bc[i2] + bc[i3])))
+        judge("bs-closed-form-butterfly", dev_b / S, "parity", "closed-form butterfly differs from the combination of closed-form calls", "cos_vs_blackscholes")
         judge("fft-vs-bs", np.max(np.abs((fc - bc) / amp)[mid]) / S, "fft_bs", "FFT call differs from Black-Scholes", "cos_vs_blackscholes")
         # the closed form without volatility (its degenerate branch): deterministic stock, price = df * (F - K)^+ ; and continuity in sigma
         for sig0 in (0.0, 1e-9):
